@@ -267,9 +267,42 @@ impl Check for C08 {
         "model_checking"
     }
     fn units(&self, tier: Tier, seed: u64) -> Vec<Value> {
-        trees(seed).into_iter().map(|l| serde_json::to_value(Unit { level: l, len: tier.pick(3, 4) }).unwrap()).collect()
+        let mut out: Vec<Value> = trees(seed).into_iter().map(|l| serde_json::to_value(Unit { level: l, len: tier.pick(3, 4) }).unwrap()).collect();
+        // fallback_to_usage on every level of every third tree: an entered sub-command's failure
+        // stays its failure, only a level that got no items at all prints its usage
+        let every_third: Vec<Level> = trees(seed + 1).into_iter().step_by(3).collect();
+        for l in crate::checks::c01::with_usage_fallback(every_third) {
+            out.push(serde_json::to_value(Unit { level: l, len: tier.pick(3, 4) }).unwrap());
+        }
+        // adjacent sub-commands (bare / optional / repeated, beside a parent switch, holding an
+        // adjacent group): the command owns exactly its contiguous block, what follows goes
+        // back to the parent - judged by C19's block scanner
+        use crate::checks::c19::{NestDef, W};
+        for cmd_wrap in [W::Bare, W::Opt, W::Many] {
+            for two_values in [false, true] {
+                for inner_switch in [false, true] {
+                    out.push(json!({"nest": NestDef { cmd_wrap, two_values, inner_switch, len: tier.pick(5, 7) }}));
+                }
+            }
+        }
+        out
     }
     fn run_unit(&self, unit: &Value, ctx: &mut Ctx) {
+        if let Some(n) = unit.get("nest") {
+            let d: crate::checks::c19::NestDef = serde_json::from_value(n.clone()).unwrap();
+            if let Ok(p) = build_checked(&crate::checks::c19::nest_opts(&d)) {
+                let alpha = crate::checks::c19::nest_alphabet(&d);
+                tree(&alpha, d.len, &mut |argv| {
+                    ctx.begin_case(|| json!({"argv": argv}));
+                    ctx.s.evaluations += 1;
+                    ctx.s.states += 1;
+                    ctx.count("adjacent-command-vectors");
+                    crate::checks::c19::judge_nest_as("C08", &d, unit, &p, argv, ctx);
+                    true
+                });
+            }
+            return;
+        }
         let u: Unit = serde_json::from_value(unit.clone()).unwrap();
         let p = match build_checked(&u.level.to_opts()) {
             Ok(p) => p,
@@ -298,6 +331,15 @@ impl Check for C08 {
         check_help(&u.level, unit, &p, ctx);
     }
     fn replay(&self, unit: &Value, case: &Value, ctx: &mut Ctx) {
+        if let Some(n) = unit.get("nest") {
+            let d: crate::checks::c19::NestDef = serde_json::from_value(n.clone()).unwrap();
+            let argv: Vec<Tok> = serde_json::from_value(case["argv"].clone()).unwrap_or_default();
+            if let Ok(p) = build_checked(&crate::checks::c19::nest_opts(&d)) {
+                ctx.s.evaluations += 1;
+                crate::checks::c19::judge_nest_as("C08", &d, unit, &p, &argv, ctx);
+            }
+            return;
+        }
         let u: Unit = serde_json::from_value(unit.clone()).unwrap();
         let argv: Vec<Tok> = serde_json::from_value(case["argv"].clone()).unwrap_or_default();
         if let Ok(p) = build_checked(&u.level.to_opts()) {
@@ -317,7 +359,7 @@ impl Check for C08 {
         }
     }
     fn rule(&self) -> String {
-        "definitions = command trees of depth <=3: top level {0,1,2 named items} x {1,2 sibling commands, either order} x {required, optional, fallback, default as last alternative, default as first alternative} x second level {0,1 named item} x {no tail, optional / required positional, required / optional / default-first third-level command with 2 leaf variants}, long and short command aliases on every third tree; inputs = every vector of the token tree (full alphabet: all names, aliases, inline forms, clusters, words, `--`, unknown names) plus, per command path and alias, the canonical sentence and EVERY misplacement of each deeper-level block to each position left of its command name, unknown / duplicated / displaced command names; all judged by the level-aware reference scanner; plus `path --help` for every path: usage line starts with the path, names mentioned are exactly that level's".into()
+        "definitions = command trees of depth <=3: top level {0,1,2 named items} x {1,2 sibling commands, either order} x {required, optional, fallback, default as last alternative, default as first alternative} x second level {0,1 named item} x {no tail, optional / required positional, required / optional / default-first third-level command with 2 leaf variants}, long and short command aliases on every third tree, fallback_to_usage on every level of a third of the trees; inputs = every vector of the token tree (full alphabet: all names, aliases, inline forms, clusters, words, `--`, unknown names) plus, per command path and alias, the canonical sentence and EVERY misplacement of each deeper-level block to each position left of its command name, unknown / duplicated / displaced command names; all judged by the level-aware reference scanner; plus `path --help` for every path: usage line starts with the path, names mentioned are exactly that level's; plus adjacent sub-commands (bare / optional / repeated, beside a parent switch, holding an adjacent group) over their token tree, judged by the block scanner: the command owns exactly its contiguous block".into()
     }
     fn bounds(&self, tier: Tier) -> Value {
         json!({"depth": 3, "siblings": 2, "tree_vector_length": tier.pick(3, 4), "sentence_length": "up to 9 tokens with one displaced block"})
